@@ -245,7 +245,7 @@ The Rust code computes every score in `i32`; the harness is built with `overflow
 
 * `custom_i32_no_overflow`: inside the parametric envelope `I32Env sc cl x y B` — `B ≥ 1` bounds `|w|` on the symbol pairs
   that occur and `|gap_open|`, `|gap_extend|`; gap and clip penalties `≤ 0`; clip penalties `≥ MIN_SCORE` (anything in
-  between); `(max(m, n, 2) + 1)·B ≤ 2³¹ + MIN_SCORE` (exact for `max(m, n) ≥ 2`) — **no checked operation fails and the checked mirror returns exactly
+  between); `(max(m, n) + 1)·B ≤ 2³¹ + MIN_SCORE` (exact) — **no checked operation fails and the checked mirror returns exactly
   what the unbounded mirror returns**.  Proof (`Lemmas/FillI32Step.lean`, `FillI32.lean`): every `S`, `Sn`, `S[curr][m]`
   of row `i` lies in `[MIN_SCORE, i·B]`, every `I`, `D` in `[MIN_SCORE − 2B, i·B]` (induction over columns and rows), so
   every intermediate sum lies in `[2·MIN_SCORE, (i+1)·B]` or above `MIN_SCORE − (max(m,n) + 1)·B`; `2·MIN_SCORE ≥ −2³¹`
@@ -290,21 +290,12 @@ theorem alignEnv_i32Env (sc : Sc) (cl : Clip) (x y : List Nat) (B : Int)
   obtain ⟨hB, h1, h2, h3, h4, h5, h6, h7, h8, hr⟩ := h
   refine ⟨hB, h1, h2, h3, h4, h5, h6, h7, h8, ?_⟩
   have hms := Model.PairwiseFill.minScore_i32
-  -- `m = n = 0`: `2·B < −MIN_SCORE` gives `3·B ≤ 2³¹ + MIN_SCORE` because `−5·MIN_SCORE ≤ 2³² + 3` (the constant is ⌈−0.4·2³¹⌉)
-  have h5m : -5 * minScore ≤ 4294967299 := by decide
-  by_cases h0 : x.length + y.length = 0
-  · have e1 : ((max (max x.length y.length) 2 : Nat) : Int) = 2 := by
-      have : max (max x.length y.length) 2 = 2 := by omega
-      rw [this]; rfl
-    have e2 : ((x.length : Int) + y.length + 1) = 1 := by omega
-    rw [e1]; rw [e2, Int.one_mul] at hr
-    omega
-  · have hle : (((max (max x.length y.length) 2 : Nat) : Int) + 1) * B ≤ 2 * (((x.length : Int) + y.length + 1) * B) := by
-      have e : 2 * (((x.length : Int) + y.length + 1) * B) = (2 * ((x.length : Int) + y.length + 1)) * B := by
-        rw [Int.mul_assoc]
-      rw [e]
-      exact Int.mul_le_mul_of_nonneg_right (by omega) (by omega)
-    omega
+  have hle : (((max x.length y.length : Nat) : Int) + 1) * B ≤ 2 * (((x.length : Int) + y.length + 1) * B) := by
+    have e : 2 * (((x.length : Int) + y.length + 1) * B) = (2 * ((x.length : Int) + y.length + 1)) * B := by
+      rw [Int.mul_assoc]
+    rw [e]
+    exact Int.mul_le_mul_of_nonneg_right (by omega) (by omega)
+  omega
 
 /-- … and `Sane` with `W = B` -/
 theorem alignEnv_sane (sc : Sc) (cl : Clip) (x y : List Nat) (B : Int)
